@@ -58,13 +58,16 @@ NAME_OF = {"UZr": "fuel", "UraniumOxide": "fuel", "B4C": "control", "HT9": "shie
 
 
 def bounds(quick):
+    """depth and, per depth, the minimum operation rank offered (see ``target_ops``)."""
     return {
         "table_geoms": "alternate" if quick else "both",  # quick: hex/Cartesian alternate over the table
-        "table_depth": 1 if quick else 2,
-        "rich_depth": 2 if quick else 3,
-        "assembly_depth": 2 if quick else 3,
-        "core_depth": 2 if quick else 3,
-        "max_states_deep": None if quick else 120000,
+        "table": (1, [0]) if quick else (2, [0, 1]),
+        "rich": (2, [0, 1]) if quick else (3, [0, 1, 1]),
+        "assembly": (2, [0, 1]) if quick else (3, [0, 1, 1]),
+        "assembly-blueprint": (1, [0]) if quick else (2, [0, 2]),
+        "core": (2, [0, 2]) if quick else (3, [0, 2, 2]),
+        "core-cartesian": (1, [0]) if quick else (2, [0, 2]),
+        "max_states": None if quick else 250000,
     }
 
 
@@ -204,6 +207,8 @@ def _direct_assembly(which):
 def _core_spec(init):
     from mcverif import build
 
+    if init.get("geom") == "cart":
+        return build.cart_spec(n=2, quarter=True, through_center=True)
     return build.hex_spec(rings=init.get("rings", 3), bond=bool(init.get("bond")))
 
 
@@ -236,9 +241,15 @@ def build_state(init):
             # symmetry factor implied by the position (independent of getSymmetryFactor): in a
             # third-core periodic hex model the centre assembly is cut in three; without the upper
             # edge assemblies every other assembly is whole (blocks.py documents exactly this).
-            ring, pos = a.spatialLocator.getRingPos()
+            # Quarter Cartesian core through the centre assembly: the centre cell is cut in four,
+            # the cells on the two axes in two.
+            i, j = int(a.spatialLocator.i), int(a.spatialLocator.j)
+            if init.get("geom") == "cart":
+                f = 4.0 if (i, j) == (0, 0) else (2.0 if (i == 0 or j == 0) else 1.0)
+            else:
+                f = 3.0 if (i, j) == (0, 0) else 1.0
             for b in a:
-                s.sf[id(b)] = 3.0 if (ring, pos) == (1, 1) else 1.0
+                s.sf[id(b)] = f
     else:
         raise ValueError(k)
     if init.get("detailed"):
@@ -376,6 +387,8 @@ def snap(s, o=None):
 
 
 def canon(tree, M):
+    """Complete state at 10 significant digits: per-component densities (with their key sets),
+    volumes and detailedNDens.  ``expand`` returns its sha1 (the frontier can hold 10^5 states)."""
     out = []
     for p, l in M.leaves(tree):
         out.append([list(p), sorted((n, sig(v)) for n, v in l["nd"].items()), sig(l["V"]), None if l["det"] is None else [sig(x) for x in l["det"]]])
@@ -404,8 +417,9 @@ def model():
 PREFER_ONE = ["U235", "B10", "NA", "FE", "O"]
 PREFER_MULTI = ["FE", "NA", "U235", "CR"]
 PREFER_SECOND = ["ZR", "U238", "CR", "C", "B11", "O"]
-# operations that are extended beyond depth 1 (the "deep" alphabet)
-DEEP = True
+# every operation has a rank: 0 = offered in the initial state only, 1 = "deep" (also offered in
+# states reached by rank>=1 operations), 2 = "key" (the handful extended in the expensive core
+# states).  init["ranks"][d] is the minimum rank offered in states at depth d.
 
 
 def _pick(cands, prefer):
@@ -433,8 +447,8 @@ def roles(M, node):
     return r
 
 
-def target_ops(M, tree, path, deep_only=False, budget="full"):
-    """Operations on the object at ``path``: list of (op, deep) simplest first.
+def target_ops(M, tree, path, budget="full"):
+    """Operations on the object at ``path``: list of (op, rank) simplest first.
     budget: 'full' | 'small' (fewer ops; used for the expensive core states)."""
     from armi.nucDirectory import nuclideBases
 
@@ -444,14 +458,14 @@ def target_ops(M, tree, path, deep_only=False, budget="full"):
     one, multi, second, absent = r["one"], r["multi"], r["second"], r["absent"]
     ops = []
 
-    def add(op, deep=False, small=True):
+    def add(op, deep=False, small=True, key=False):
         if budget == "small" and not small:
             return
-        ops.append((op, deep))
+        ops.append((op, 2 if key else (1 if deep else 0)))
 
     if one:
         add(["setND", p, one, ["mul", 2.0]], small=False)
-        add(["setND", p, one, ["mul", 0.5]], deep=True)
+        add(["setND", p, one, ["mul", 0.5]], key=True)
         add(["setND", p, one, ["abs", 0.0]], deep=True)
         add(["setND", p, one, ["abs", TRACE]], small=False)
     if multi:
@@ -459,12 +473,12 @@ def target_ops(M, tree, path, deep_only=False, budget="full"):
         add(["setND", p, multi, ["abs", 0.0]], small=False)
     add(["setND", p, absent, ["abs", 1.0e-3]], deep=node["lvl"] == "component")
     add(["setND", p, absent, ["abs", 0.0]], small=False)
-    add(["scale", p, 2.0], deep=True)
+    add(["scale", p, 2.0], key=True)
     add(["scale", p, 0.5], small=False)
     if one:
-        add(["setMass", p, one, ["abs", 100.0]], deep=True)
+        add(["setMass", p, one, ["abs", 100.0]], key=True)
         add(["setMass", p, one, ["mulmass", 2.0]], small=False)
-        add(["addMass", p, one, ["mulmass", 0.5]], small=False)
+        add(["addMass", p, one, ["mulmass", 0.5]])
         add(["removeMass", p, one, ["mulmass", 0.5]], deep=True)
         add(["removeMass", p, one, ["mulmass", 1.0]], small=False)
     if multi:
@@ -482,7 +496,7 @@ def target_ops(M, tree, path, deep_only=False, budget="full"):
     if one:
         add(["setNDs", p, {"mul": 0.5}], small=False)
         add(["setNDs", p, {"only": [one], "mul": 2.0}], deep=True)
-        add(["setMassFrac", p, one, 0.2], deep=True)
+        add(["setMassFrac", p, one, 0.2], key=True)
         add(["setMassFrac", p, one, 0.0], small=False)
         add(["adjustMassFrac", p, {"nuclideToAdjust": one, "val": 0.3}], deep=True)
         el = nuclideBases.byName[one].element.symbol
@@ -493,8 +507,6 @@ def target_ops(M, tree, path, deep_only=False, budget="full"):
     if node["lvl"] == "block":
         add(["setHeight", p, 1.25, False], deep=True)
         add(["setHeight", p, 0.8, True], small=False)
-    if deep_only:
-        return [(o, d) for o, d in ops if d]
     return ops
 
 
@@ -508,18 +520,22 @@ def targets(s, tree, M):
         return t
     if k == "assembly":
         return [((), "full"), ((0,), "full"), ((0, 0), "small")]
-    # core: the centre assembly (symmetry factor 3) and one whole interior assembly
-    ic = [i for i, a in enumerate(tree["kids"]) if a["kids"][0]["sym"]][0]
-    io = [i for i, a in enumerate(tree["kids"]) if not a["kids"][0]["sym"]][0]
-    return [((), "full"), ((ic,), "small"), ((ic, 0), "small"), ((ic, 0, 0), "small"), ((io,), "small"), ((io, 1, 1), "small")]
+    # core: the centre assembly (symmetry factor 3 / 4) and one whole interior assembly; in the
+    # Cartesian quarter core also a component of an assembly on an axis (factor 2)
+    sfs = [a["kids"][0]["sf"] for a in tree["kids"]]
+    ic = sfs.index(max(sfs))
+    io = sfs.index(1.0)
+    t = [((), "full"), ((ic,), "small"), ((ic, 0), "small"), ((ic, 0, 0), "small"), ((io,), "small")]
+    if 2.0 in sfs:
+        t.append(((sfs.index(2.0), 1, 0), "small"))
+    return t
 
 
-def alphabet(s, tree, M, depth):
+def alphabet(s, tree, M):
+    """All (op, rank) of the initial state, simplest first."""
     out = []
     for path, budget in targets(s, tree, M):
-        for op, deep in target_ops(M, tree, path, budget=budget):
-            if depth == 0 or deep:
-                out.append((op, deep))
+        out += target_ops(M, tree, path, budget=budget)
     return out
 
 
@@ -671,8 +687,10 @@ def real_apply(obj, op, a):
         raise ValueError(name)
 
 
-def lvl_tag(node):
-    return node["lvl"] + ("-symcut" if node.get("sym") else "")
+def lvl_tag(node, sym=True):
+    """level part of a class key; '-symcut' marks objects of a block cut by symmetry lines, for the
+    oracles the symmetry factor enters (volumes, masses, atoms)."""
+    return node["lvl"] + ("-symcut" if sym and node.get("sym") else "")
 
 
 def step(s, M, pre, op, check, case):
@@ -683,6 +701,7 @@ def step(s, M, pre, op, check, case):
     obj = obj_at(s.root, path)
     Tpre = M.at(pre, path)
     tag = lvl_tag(Tpre)
+    ltag = lvl_tag(Tpre, sym=False)
 
     def bad(key, msg):
         vs.append(core.viol("c02/" + key, "%s after %s: %s" % (_where(s, path), _opstr(op, a), msg), case))
@@ -704,14 +723,14 @@ def step(s, M, pre, op, check, case):
         return out, post, vs
     if out != "ok":
         if type(exc).__name__ not in CONTRACT:
-            bad("exception-%s-%s-%s" % (name, tag, type(exc).__name__), "unexpected %r" % (exc,))
+            bad("exception-%s-%s-%s" % (name, ltag, type(exc).__name__), "unexpected %r" % (exc,))
         elif want_out == "ok":
-            bad("refusal-unexpected-%s-%s" % (name, tag), "raised %r although the request is well defined" % (exc,))
+            bad("refusal-unexpected-%s-%s" % (name, ltag), "raised %r although the request is well defined" % (exc,))
         elif _leafdiff(M, pre, post, ()):
-            bad("refusal-changed-state-%s-%s" % (name, tag), "refused with %s but densities changed: %s" % (type(exc).__name__, _leafdiff(M, pre, post, ())[:2]))
+            bad("refusal-changed-state-%s-%s" % (name, ltag), "refused with %s but densities changed: %s" % (type(exc).__name__, _leafdiff(M, pre, post, ())[:2]))
         return out, post, vs
     if want_out != "ok":
-        bad("refusal-missing-%s-%s" % (name, tag), "accepted, but no child holds the nuclide / the density is zero (documented ValueError)")
+        bad("refusal-missing-%s-%s" % (name, ltag), "accepted, but no child holds the nuclide / the density is zero (documented ValueError)")
         return out, post, vs
 
     n0 = len(vs)
@@ -921,8 +940,8 @@ def invariants(s, M, tree, case, full_paths=None):
     vs = []
     seen = set()
 
-    def bad(key, node, path, msg):
-        k = "c02/" + key + "-" + lvl_tag(node)
+    def bad(key, node, path, msg, sym=True):
+        k = "c02/" + key + "-" + lvl_tag(node, sym)
         if k in seen:
             return
         seen.add(k)
@@ -948,7 +967,7 @@ def invariants(s, M, tree, case, full_paths=None):
             try:
                 fn()
             except Exception as e:  # noqa: BLE001 - a raising query is reported, never a harness error
-                bad("query-raises-%s-%s" % (label, type(e).__name__), node, path, "%s query raised %r (densities %s)" % (label, e, {n: mN[n] for n in sorted(mN)[:4]}))
+                bad("query-raises-%s-%s" % (label, type(e).__name__), node, path, "%s query raised %r (densities %s)" % (label, e, {n: mN[n] for n in sorted(mN)[:4]}), sym=False)
 
         def volume():
             v = q["v"] = o.getVolume()
@@ -1001,7 +1020,7 @@ def invariants(s, M, tree, case, full_paths=None):
         def density():
             rho = o.density()
             if not close(rho, M.density(node)):
-                bad("density", node, path, "density() = %r, sum N A / N_A = %r (densities %s)" % (rho, M.density(node), {n: mN[n] for n in sorted(mN)[:4]}))
+                bad("density", node, path, "density() = %r, sum N A / N_A = %r (densities %s)" % (rho, M.density(node), {n: mN[n] for n in sorted(mN)[:4]}), sym=False)
             elif "v" in q and "mtot" in q and here:
                 # mass = density x volume (a component counts volume / symmetry factor of its block: component.py getMass)
                 rv = rho * q["v"] / (node["V"] / node["w"] if comp and node["w"] else 1.0)
@@ -1130,6 +1149,9 @@ def _touched_paths(hist):
 
 
 def expand(item):
+    import time
+
+    cpu0 = time.process_time()
     init, hist, outs = item["init"], item["hist"], item.get("outs", [])
     M = model()
     s = build_state(init)
@@ -1150,22 +1172,30 @@ def expand(item):
     if init["kind"] == "core" and hist:
         full_paths = _touched_paths(hist)
     viols += invariants(s, M, tree, case, full_paths)
+    # operations offered here: rank >= ranks[depth], and only if the whole history has that rank
+    ranks = init.get("ranks", [0, 1, 1, 1])
     depth = len(hist)
-    if depth == 0:
-        ops = [op for op, _d in alphabet(s, tree0, M, 0)]
+    R = ranks[depth] if depth < len(ranks) else 99
+    alpha = alphabet(s, tree0, M)
+    rank_of = {_opkey(op): rk for op, rk in alpha}
+    if all(rank_of.get(_opkey(h), -1) >= R for h in hist):
+        ops = [op for op, rk in alpha if rk >= R]
     else:
-        deep0 = {_opkey(op) for op, d in alphabet(s, tree0, M, 0) if d}
-        if all(_opkey(h) in deep0 for h in hist):
-            ops = [op for op, d in alphabet(s, tree0, M, 1)]
-        else:
-            ops = []
-    return {"canon": canon(tree, M), "full": None, "viols": viols, "ops": ops, "out": out, "terminal": not ops}
+        ops = []
+    return {"canon": _digest(canon(tree, M)), "full": None, "viols": viols, "ops": ops, "out": out, "terminal": not ops, "cpu": time.process_time() - cpu0}
 
 
 def _opkey(op):
     import json
 
     return json.dumps(op, sort_keys=True)
+
+
+def _digest(x):
+    import hashlib
+    import json
+
+    return hashlib.sha1(json.dumps(x, sort_keys=True).encode()).hexdigest()
 
 
 def evaluate(case):
@@ -1189,7 +1219,12 @@ def inits(ctx):
     assem = [{"kind": "assembly", "which": w} for w in ("hex3", "cart2", "hex2")]
     bp = [{"kind": "assembly", "which": "blueprint"}]
     cores = [{"kind": "core", "rings": 3}]
-    return B, table, rich, assem, bp, cores
+    cart = [{"kind": "core", "geom": "cart"}]
+    groups = [("table", table), ("rich", rich), ("assembly", assem), ("assembly-blueprint", bp), ("core", cores), ("core-cartesian", cart)]
+    for name, ii in groups:
+        for x in ii:
+            x["ranks"] = list(B[name][1])
+    return B, groups
 
 
 KEEP_PER_KEY = 25  # violations stored per class key (all are counted in the counters)
@@ -1204,6 +1239,7 @@ def _bfs(ctx, inits_, depth, max_states=None):
     import json
 
     seen = set()
+    extended = set()
     frontier = [{"init": init, "hist": [], "outs": [], "_i": i} for i, init in enumerate(inits_)]
     st = {"states": 0, "transitions": 0, "traces": 0, "levels": [], "closure": False, "ops": {}, "outcomes": {}, "capped": False}
     stored = {}
@@ -1217,6 +1253,7 @@ def _bfs(ctx, inits_, depth, max_states=None):
         new = 0
         for it, r in zip(frontier, res):
             st["traces"] += 1
+            st["cpu_s"] = st.get("cpu_s", 0.0) + r.get("cpu", 0.0)
             out = r.get("out", "ok")
             if it["hist"]:
                 st["transitions"] += 1
@@ -1228,20 +1265,27 @@ def _bfs(ctx, inits_, depth, max_states=None):
                 if stored.get(v["key"], 0) < KEEP_PER_KEY:
                     stored[v["key"]] = stored.get(v["key"], 0) + 1
                     ctx.add_violations([v])
-            k = (it["_i"], json.dumps(r["canon"], sort_keys=True))
-            if k in seen:
+            k = (it["_i"], r["canon"])
+            extendable = d < depth and not r.get("terminal") and not out.startswith("raised:")
+            if k not in seen:
+                seen.add(k)
+                new += 1
+                st["states"] += 1
+            elif not extendable or k in extended:
                 continue
-            seen.add(k)
-            new += 1
-            st["states"] += 1
+            # Whether a state is extended must not depend on which of several histories reaching
+            # it is processed first (the seed permutes the order): a state is extended once, by the
+            # first history that is allowed to extend it.
+            if extendable:
+                extended.add(k)
             if it["hist"] and len(it["hist"]) == d and len(ctx.samples) < 5 and (len(ctx.samples) < d or it["init"]["kind"] not in [x["init"].get("kind") for x in ctx.samples]):
                 ctx.samples.append({"init": it["init"], "history": it["hist"], "outcomes": it["outs"] + [out]})
-            if d < depth and not r.get("terminal") and not out.startswith("raised:"):
+            if extendable:
                 outs = it["outs"] + ([out] if it["hist"] else [])
                 for op in r["ops"]:
                     nxt.append({"init": it["init"], "hist": it["hist"] + [op], "outs": outs, "_i": it["_i"]})
         st["levels"].append({"depth": d, "executed": len(frontier), "new_states": new})
-        ctx.log("depth %d: executed %d histories, %d new canonical states, next frontier %d" % (d, len(frontier), new, len(nxt)))
+        ctx.log("depth %d: executed %d histories, %d new canonical states, next frontier %d (cpu so far %.0f s)" % (d, len(frontier), new, len(nxt), st.get("cpu_s", 0.0)))
         if max_states and st["states"] >= max_states and nxt and d < depth:
             st["capped"] = True
             ctx.notes.append("state cap %d reached after depth %d; deeper levels not explored" % (max_states, d))
@@ -1253,27 +1297,30 @@ def _bfs(ctx, inits_, depth, max_states=None):
 
 
 def run(ctx):
-    B, table, rich, assem, bp, cores = inits(ctx)
+    import os
+
+    B, groups = inits(ctx)
+    only = [g for g in os.environ.get("VERIF_C02_GROUPS", "").split(",") if g]  # development aid: restrict the searches
+    if only:
+        groups = [(n, ii) for n, ii in groups if n in only]
+        ctx.notes.append("restricted to searches %s by VERIF_C02_GROUPS (development run)" % only)
     total = {}
-    for name, ii, depth in (
-        ("table", table, B["table_depth"]),
-        ("rich", rich, B["rich_depth"]),
-        ("assembly", assem, B["assembly_depth"]),
-        ("assembly-blueprint", bp, min(2, B["assembly_depth"])),
-        ("core", cores, B["core_depth"]),
-    ):
-        ctx.log("search %s: %d initial states, depth %d" % (name, len(ii), depth))
-        st = _bfs(ctx, ii, depth, max_states=B["max_states_deep"] if name != "table" else None)
+    depths = {}
+    for name, ii in groups:
+        depth = depths[name] = B[name][0]
+        ctx.log("search %s: %d initial states, depth %d, minimum operation rank per depth %s" % (name, len(ii), depth, B[name][1]))
+        st = _bfs(ctx, ii, depth, max_states=B["max_states"])
         explore.merge_stats(total, st)
         total["searches"][-1]["name"] = name
         total["searches"][-1]["initial_states"] = len(ii)
         total["searches"][-1]["depth"] = depth
+        total["searches"][-1]["worker_cpu_s"] = round(st.get("cpu_s", 0.0), 1)
         ctx.count("states_" + name, st["states"])
         for o, n in st["outcomes"].items():
             ctx.count("outcome_" + o, n)
         for o, n in st["ops"].items():
             ctx.count("op_" + o, n)
-    explore.finish(ctx, total, {"depth": {"table": B["table_depth"], "rich": B["rich_depth"], "assembly": B["assembly_depth"], "core": B["core_depth"]}, "rtol": RTOL})
+    explore.finish(ctx, total, {"depth": depths, "rtol": RTOL})
     ctx.coverage["exhaustive"] = False  # the numeric state space is infinite: depth-bounded by design
     ctx.assumptions += [
         "depth-bounded: every history of <= depth operations of the stated alphabet from the stated initial states; beyond depth 1 only the 'deep' sub-alphabet is extended",
